@@ -49,7 +49,7 @@ for _n in gen.NARY + ["multi_matmul"]:
     STEP_OF[_n] = gen.step_nary
 ALL_NAMES = sorted(STEP_OF)
 # ops whose option space is large are drawn more often (axis x keepdims x ddof, ord, subscripts, index kinds, ...)
-_WEIGHT = {"var": 5, "std": 5, "sum": 3, "mean": 3, "prod": 3, "max": 4, "min": 4, "norm": 4, "einsum": 4, "getitem": 3,
+_WEIGHT = {"multi_matmul": 3, "var": 5, "std": 5, "sum": 3, "mean": 3, "prod": 3, "max": 4, "min": 4, "norm": 4, "einsum": 4, "getitem": 3,
            "getitem_adv": 4, "repeat": 3, "matmul": 3, "softmax": 2, "logsoftmax": 2, "cumsum": 2, "cumprod": 2, "roll": 2,
            "transpose": 2, "reshape": 4, "ravel": 2, "flatten": 2, "squeeze": 2, "where": 2, "clip": 2, "concatenate": 2, "stack": 2, "power": 2}
 WEIGHTED_NAMES = [n for n in ALL_NAMES for _ in range(_WEIGHT.get(n, 1))]
@@ -72,10 +72,15 @@ def _seed(draw, shape):
 
 
 @st.composite
-def cases(draw, names=None):
+def cases(draw, names=None, flags=False):
+    """flags=True (used by C10): operands of every constant/non-constant kind in every position and an explicit
+    constant= keyword on the op now and then"""
     name = draw(st.sampled_from(names or WEIGHTED_NAMES))
     b = Builder(draw, max_elems=30, allow_int=True)
-    b.allow_const_flag = False
+    b.allow_const_flag = bool(flags)
+    if flags:
+        b.allow_const_false = True
+        b.const_flag_odds = 5
     b.ufunc_options = True
     b.allow_empty = draw(st.integers(0, 7)) == 0
     b.recency_bias = False
@@ -93,7 +98,8 @@ def cases(draw, names=None):
     leaf_kw = {"absgt1": {"band": (20, 48)}, "nonzero": {"band": (3, 48)}, "nz_small": {"band": (3, 44)}, "unit": {"lo": -13, "hi": 13},
                "pos": {"lo": 4, "hi": 48}, "gt1": {"lo": 20, "hi": 48}}.get(dom0, {})
     for i in range(nleaves):
-        kind = draw(st.sampled_from(["var", "var", "var", "const", "array", "scalar", "intarray"])) if i else "var"
+        kind = draw(st.sampled_from(["var", "var", "var", "const", "array", "scalar", "intarray"])) if i else (
+            draw(st.sampled_from(["var", "var", "const", "array"])) if flags else "var")
         shape = list(base) if i == 0 else ([] if kind == "scalar" else shape_variant(draw, base))
         layout = draw(st.sampled_from(LAYOUTS)) if kind in ("var", "const", "array") and len(shape) >= 1 else None
         if layout == "relaxed" and 1 not in shape:
